@@ -31,6 +31,16 @@ structure Glue where
   recompileOnChange : Bool
   /-- … and the remembered values are replaced by the current ones in that branch -/
   storesValues : Bool
+  /-- the recompile test also has the disjunct `<model's cache object> is not <remembered cache object>`: every edit of
+      the model (`_invalidate_cache`) is noticed, not only a changed parameter value -/
+  watchesModel : Bool
+  /-- … and the remembered cache object is replaced by the current one in that branch -/
+  storesCache : Bool
+  /-- expression the cache object is taken from (at compile time and in the closure) -/
+  cacheFrom : String
+  /-- in the recompile branch the compilation comes first: what the closure remembers is replaced only after
+      `_compile_jac()` has returned (if it raises, the next call compiles again instead of using the old function) -/
+  compileBeforeStore : Bool
   /-- compiling and installing happen inside the `try` -/
   compileInsideTry : Bool
   /-- `except Exception` (or bare / BaseException) -/
@@ -56,7 +66,8 @@ def expectedGlue : Glue :=
     valuesFrom := "tuple(model.get_parameter_values().values())",
     compiledFrom := "tuple(model.get_parameter_values().values())",
     matrix := "to_symbolic_model(model).jacobian()",
-    recompileOnChange := true, storesValues := true, compileInsideTry := true, catchesAll := true,
+    recompileOnChange := true, storesValues := true, watchesModel := true, storesCache := true,
+    cacheFrom := "model._create_cache()", compileBeforeStore := true, compileInsideTry := true, catchesAll := true,
     fallbackNone := true, fallbackWarns := true, integratorGetsJac := true, onlyWhenRequested := true,
     reinitSites := ["__init__", "clear_results", "update_variables"],
     parameterSites := ["scale_parameter", "scale_parameters", "update_parameter", "update_parameters"] }
@@ -66,6 +77,7 @@ def GlueOk (g : Glue) : Bool :=
   g.lambdifyArgs == expectedGlue.lambdifyArgs && g.callArgs == expectedGlue.callArgs &&
   g.valuesFrom == expectedGlue.valuesFrom && g.compiledFrom == expectedGlue.compiledFrom &&
   g.matrix == expectedGlue.matrix &&
+  g.cacheFrom == expectedGlue.cacheFrom && g.watchesModel && g.storesCache && g.compileBeforeStore &&
   g.recompileOnChange && g.storesValues && g.compileInsideTry && g.catchesAll && g.fallbackNone &&
   g.fallbackWarns && g.integratorGetsJac && g.onlyWhenRequested &&
   ["__init__", "clear_results", "update_variables"].all (g.reinitSites.contains ·)
@@ -79,16 +91,24 @@ def Glue.aligned (g : Glue) : Bool :=
   g.valuesFrom == expectedGlue.valuesFrom && g.compiledFrom == expectedGlue.compiledFrom &&
   g.matrix == expectedGlue.matrix
 
-/-- `jac_fn(t, x)` with the facts `g`; returns the closure's new state too -/
-def JacClosure.callG (g : Glue) (cl : JacClosure) (now : SContent) (t : Rat) (xs : List Rat) :
-    Except Err (JacClosure × List (List Rat)) := do
-  let (_, _, values) ← jacArgs now
-  let cl' ← if g.recompileOnChange && values != cl.vals then do
-      let f ← compileJac now
-      pure ({ fn := f, vals := if g.storesValues then values else cl.vals } : JacClosure)
-    else pure cl
-  let J ← evalJacFn cl'.fn t xs (if g.passesCurrent then values else cl'.vals)
-  pure (cl', J)
+/-- `jac_fn(t, x)` with the facts `g`.  `clVer` = the model's cache object the closure remembers, `nowVer` = the
+    model's current one (a number that changes with every edit of the model, `_invalidate_cache`).  Returns the
+    closure's state after the call — ALSO when the call raises (the exception escapes from the solver, the closure
+    object lives on and is called again by the next simulation) — and the matrix or the error. -/
+def JacClosure.callG (g : Glue) (cl : JacClosure) (clVer : Nat) (now : SContent) (nowVer : Nat) (t : Rat)
+    (xs : List Rat) : (JacClosure × Nat) × Except Err (List (List Rat)) :=
+  match jacArgs now with
+  | .error e => ((cl, clVer), .error e)
+  | .ok (_, _, values) =>
+    if (g.recompileOnChange && values != cl.vals) || (g.watchesModel && nowVer != clVer) then
+      let stored : JacClosure × Nat :=
+        ({ fn := cl.fn, vals := if g.storesValues then values else cl.vals }, if g.storesCache then nowVer else clVer)
+      match compileJac now with
+      | .error e => ((if g.compileBeforeStore then (cl, clVer) else stored), .error e)
+      | .ok f =>
+        let st : JacClosure × Nat := ({ fn := f, vals := stored.1.vals }, stored.2)
+        (st, evalJacFn f t xs (if g.passesCurrent then values else st.1.vals))
+    else ((cl, clVer), evalJacFn cl.fn t xs (if g.passesCurrent then values else cl.vals))
 
 /-- `_initialise_integrator` with the facts `g`: `.ok none` = fallback (a warning is logged, no Jacobian);
     an error = the conversion error escapes from the constructor -/
@@ -104,34 +124,49 @@ def installG (g : Glue) (useJac : Bool) (c : SContent) : Except Err (Option JacC
 inductive SimOp where
   /-- `Simulator.update_parameter(s)` / `scale_parameter(s)` / a protocol step: `Model.update_parameter` -/
   | setPar (k : Name) (v : Rat)
+  /-- any other edit of the model the Simulator holds (`sim.model.update_reaction(...)`, `update_derived`, `add_*`,
+      `remove_*` …): afterwards its content is `c'` -/
+  | edit (c' : SContent)
   /-- `clear_results` / `update_variable(s)`: `_initialise_integrator` again on the current model -/
   | reinit
   /-- the integrator calls `jac_fn(t, x)` -/
   | call (t : Rat) (xs : List Rat)
 deriving Inhabited
 
+/-- `version` stands for the identity of the model's cache object: every editing method of `Model` is wrapped in
+    `_invalidate_cache`, so the next `_create_cache()` returns a new object -/
 structure SimState where
   content : SContent
-  jac : Option JacClosure
+  version : Nat := 0
+  jac : Option (JacClosure × Nat)
 deriving Inhabited
 
-/-- observable of one step: `none` for an update; for a call `some none` when the integrator has no
-    Jacobian, `some (some J)` for the matrix it gets -/
-abbrev SimOut := Option (Option (List (List Rat)))
+/-- observable of one step -/
+inductive SimOut where
+  /-- an update / re-initialisation: nothing to observe -/
+  | upd
+  /-- a call while the integrator has no Jacobian -/
+  | noJac
+  /-- the matrix the integrator gets -/
+  | mat (J : List (List Rat))
+  /-- `jac_fn` raised (the exception escapes from the solver; the Simulator and its closure stay in use) -/
+  | raised
+deriving DecidableEq, Repr, Inhabited
 
 def SimState.stepG (g : Glue) (s : SimState) : SimOp → Except Err (SimState × SimOut)
-  | .setPar k v => .ok ({ s with content := s.content.setPar k v }, none)
+  | .setPar k v => .ok ({ s with content := s.content.setPar k v, version := s.version + 1 }, .upd)
+  | .edit c' => .ok ({ s with content := c', version := s.version + 1 }, .upd)
   | .reinit => do
     let j ← installG g true s.content
-    pure ({ s with jac := j }, none)
+    pure ({ s with jac := j.map fun cl => (cl, s.version) }, .upd)
   | .call t xs =>
     match s.jac with
-    | none => .ok (s, some none)
-    | some cl => do
-      let (cl', J) ← cl.callG g s.content t xs
-      pure ({ s with jac := some cl' }, some (some J))
+    | none => .ok (s, .noJac)
+    | some (cl, ver) =>
+      let r := cl.callG g ver s.content s.version t xs
+      .ok ({ s with jac := some r.1 }, match r.2 with | .ok J => .mat J | .error _ => .raised)
 
-/-- a whole history; the outputs in order.  An error ends the history (Python: the exception escapes). -/
+/-- a whole history; the outputs in order.  Only a re-initialisation can end it with an error (never with the generated facts). -/
 def runG (g : Glue) : SimState → List SimOp → Except Err (SimState × List SimOut)
   | s, [] => .ok (s, [])
   | s, op :: ops => do
@@ -142,11 +177,12 @@ def runG (g : Glue) : SimState → List SimOp → Except Err (SimState × List S
 /-- `Simulator(model, use_jacobian=True)` -/
 def simInitG (g : Glue) (c : SContent) : Except Err SimState := do
   let j ← installG g true c
-  pure { content := c, jac := j }
+  pure { content := c, version := 0, jac := j.map fun cl => (cl, 0) }
 
 /-- the model's content after one operation (independent of the glue) -/
 def SimOp.after (c : SContent) : SimOp → SContent
   | .setPar k v => c.setPar k v
+  | .edit c' => c'
   | _ => c
 
 /-- … and after a history -/
